@@ -908,7 +908,7 @@ int write_msa_msf(struct msa* msa,char* outfile)
                 max_name_len = MACRO_MAX(max_name_len, (int)strnlen( msa->sequences[i]->name,MSA_NAME_LEN));
         }
 
-        aln_len = msa->sequences[0]->len;
+        aln_len = msa->alnlen;
         /* for (j = 0; j <= msa->sequences[0]->len;j++){ */
         /*         aln_len+=  msa->sequences[0]->gaps[j]; */
         /* } */
@@ -1020,7 +1020,7 @@ int write_msa_msf(struct msa* msa,char* outfile)
                                    max_name_len,max_name_len,
                                    msa->sequences[i]->name ,
                                    aln_len,
-                                   GCGchecksum(msa->sequences[i]->seq, msa->sequences[i]->len),
+                                   GCGchecksum(msa->sequences[i]->seq, aln_len),
                                    1.0);
                 if(written >= line_length){
                         MREALLOC(lb->lines[lb->num_line]->line,sizeof(char) * (written+1));
@@ -1029,7 +1029,7 @@ int write_msa_msf(struct msa* msa,char* outfile)
                                            max_name_len,max_name_len,
                                            msa->sequences[i]->name ,
                                            aln_len,
-                                           GCGchecksum(msa->sequences[i]->seq, msa->sequences[i]->len),
+                                           GCGchecksum(msa->sequences[i]->seq, aln_len),
                                            1.0);
                 }
                 ol->block = -1;
